@@ -1032,12 +1032,28 @@ impl SparqlDatabase {
 
                     let object_raw = object_tokens.join(" ");
 
-                    // Handle annotation syntax {| ... |}
-                    let (object_part, annotations) = if let Some(ann_start) = object_raw.find("{|")
+                    // Handle annotation syntax {| ... |}. An annotation can only follow the
+                    // object term: `{|` / `|}` inside a double-quoted literal are ordinary
+                    // characters of its value, and the closing `|}` is searched after the
+                    // opening `{|`.
+                    let annotation_search_start = if object_raw.starts_with('"') {
+                        decode_ntriples_literal(&object_raw)
+                            .map(|(_, rest)| object_raw.len() - rest.len())
+                            .unwrap_or(object_raw.len())
+                    } else {
+                        0
+                    };
+                    let (object_part, annotations) = if let Some(ann_start) = object_raw
+                        [annotation_search_start..]
+                        .find("{|")
+                        .map(|offset| annotation_search_start + offset)
                     {
                         let obj = object_raw[..ann_start].trim().to_string();
 
-                        if let Some(ann_end) = object_raw.find("|}") {
+                        if let Some(ann_end) = object_raw[ann_start + 2..]
+                            .find("|}")
+                            .map(|offset| ann_start + 2 + offset)
+                        {
                             let ann_content = object_raw[ann_start + 2..ann_end].trim();
                             let ann_parts: Vec<&str> =
                                 ann_content.splitn(2, char::is_whitespace).collect();
